@@ -51,6 +51,8 @@ MIN = {'quick': {'distinct': 20000,
                             'gzip': 100, 'export v4': 150,
                             'tigerxml without VROOT node': 30, 'arity > 6': 50,
                             'brackets_emptypos': 30,
+                            'category EMPTY read with gf_split': 30,
+                            'gzip file with two members': 30,
                             'file longer than 24 000 characters': 8,
                             'word starting with # or %%': 60,
                             'gf_separator differs from the labels': 30,
@@ -178,7 +180,10 @@ def make_bank(rng, fmt, decorated, sep, quick=True, unispace=True, big=False):
         words = words + gen.WORDS_UNISPACE
     if fmt in ('brackets', 'discobrackets'):
         words = [w for w in words if '(' not in w and ')' not in w]
-    pools = gen.Pools(words=words, pos=gen.POS + ['$.', '$,', 'PRP$'],
+    empty_cat = rng.random() < 0.12
+    pools = gen.Pools(words=words, pos=gen.POS + ['$.', '$,', 'PRP$']
+                      + (['EMPTY'] * 4 if empty_cat else []),
+                      cats=gen.CATS + (['EMPTY'] * 4 if empty_cat else []),
                       edges=['HD', 'NK', 'SB', 'OA', 'MO', '--', '--'],
                       morphs=gen.MORPHS + ['[Sg]', '(x)', '-LRB-'])
     k = rng.randint(1, 4 if quick else 6)
@@ -337,8 +342,16 @@ def run_case(ctx, case, probe_obj=None):
     path = ctx.path('.' + fmt + ('.gz' if case.get('gz') else ''))
     data = text.encode('utf-8' if fmt == 'tigerxml' else enc)
     if case.get('gz'):
-        with gzip.open(path, 'wb') as f:
-            f.write(data)
+        if case.get('layout_seed', 0) % 2 and len(data) > 20:
+            # a gzip file made of two members (cat a.gz b.gz > all.gz)
+            cut = len(data) // 2
+            with io.open(path, 'wb') as f:
+                f.write(gzip.compress(data[:cut]))
+                f.write(gzip.compress(data[cut:]))
+            ctx.stratum('gzip file with two members')
+        else:
+            with gzip.open(path, 'wb') as f:
+                f.write(data)
     else:
         with io.open(path, 'wb') as f:
             f.write(data)
@@ -424,6 +437,10 @@ def run_case(ctx, case, probe_obj=None):
                     if len(text) > 24000 else 'large file')
     if case.get('mismatch'):
         ctx.stratum('gf_separator differs from the labels')
+    if any(n.get('l', n.get('p')) is not None and
+           str(n.get('l', n.get('p'))).startswith('EMPTY')
+           for sp in bank for n in gen.walk(sp['root'])) and 'gf_split' in opts:
+        ctx.stratum('category EMPTY read with gf_split')
     if any(t['w'][:1] in '#%' for sp in bank for t in gen.tokens_of(sp['root'])):
         ctx.stratum('word starting with # or %%')
     if any(c in t['w'] for sp in bank for t in gen.tokens_of(sp['root'])
